@@ -642,4 +642,54 @@ def r_no_partial_key_memo(chk):
     common.no_partial_key_memo(chk, 'C12.R8', 'pysmi/codegen/symtable.py', 'SymtableCodeGen')
 
 
-RULES = [r1_parser_reset, r2_generator_reset, r4_symbol_table_read_only, r5_determinism, r6_status_objects_not_shared, r7_class_tables_not_mutated, r_no_partial_key_memo]
+
+def r9_compile_keeps_its_state_in_locals(chk):
+    """what one compile() call learns must not be there for the next one"""
+    model = chk.model
+    chk.doc('C12.R9', 'MibCompiler.compile / buildIndex (and the methods of the compiler they call): no instance attribute '
+                      'of the compiler is written, and no local that is bound directly to `self.<attr>` (no copy, no '
+                      'constructor around it) is modified in place - item store or delete, mutating method, augmented '
+                      'assignment.  The maps of parsed / failed / built modules and the symbol tables are created in the '
+                      'call; a map that lives on the compiler object hands a later call the modules (and symbol tables) of '
+                      'an earlier one')
+    ci = model.cls('pysmi/compiler.py', 'MibCompiler')
+    n = 0
+    for entry in ('compile', 'buildIndex'):
+        for mname, (owner, fn) in sorted(reachable_methods(ci, entry).items()):
+            n += 1
+            ws = writes_in(fn)
+            chk.ob('C12.R9', 'MibCompiler.%s/no-instance-writes' % mname, not ws, where(owner.mod, ws[0][2] if ws else fn),
+                   '%s() writes self.%s (%s)' % (mname, ws[0][0], norm(ws[0][2])[:60]) if ws else '')
+            alias = {}
+            for s_ in walk_no_nested(fn):
+                if isinstance(s_, ast.Assign) and len(s_.targets) == 1 and isinstance(s_.targets[0], ast.Name) and \
+                        common.is_self_attr(s_.value):
+                    alias[s_.targets[0].id] = s_
+            bad = []
+            for x in walk_no_nested(fn):
+                tgt = None
+                if isinstance(x, ast.Assign):
+                    for t in x.targets:
+                        if isinstance(t, ast.Subscript) and isinstance(t.value, ast.Name):
+                            tgt = t.value.id
+                elif isinstance(x, ast.AugAssign):
+                    t = x.target
+                    tgt = t.id if isinstance(t, ast.Name) else (t.value.id if isinstance(t, ast.Subscript) and
+                                                               isinstance(t.value, ast.Name) else None)
+                elif isinstance(x, ast.Delete):
+                    for t in x.targets:
+                        if isinstance(t, ast.Subscript) and isinstance(t.value, ast.Name):
+                            tgt = t.value.id
+                elif isinstance(x, ast.Call) and isinstance(x.func, ast.Attribute) and x.func.attr in MUTATING_METHODS and \
+                        isinstance(x.func.value, ast.Name):
+                    tgt = x.func.value.id
+                if tgt in alias:
+                    bad.append((tgt, x))
+            chk.ob('C12.R9', 'MibCompiler.%s/no-instance-state-through-a-local' % mname, not bad,
+                   where(owner.mod, bad[0][1] if bad else fn),
+                   'local `%s` is the object held in %s and is modified in place (%s): what this call stores there is '
+                   'still there in the next call' % (bad[0][0], norm(alias[bad[0][0]].value), norm(bad[0][1])[:60]) if bad else '')
+    chk.floor('C12.R9', 2, 'methods reachable from compile / buildIndex')
+
+
+RULES = [r1_parser_reset, r2_generator_reset, r4_symbol_table_read_only, r5_determinism, r6_status_objects_not_shared, r7_class_tables_not_mutated, r_no_partial_key_memo, r9_compile_keeps_its_state_in_locals]
